@@ -82,10 +82,18 @@ def native_demonstration(crate, dm, timeout=900):
                 shutil.copy2(os.path.join(REPO, f), os.path.join(plain, f))
         shutil.copytree(os.path.join(REPO, "src"), os.path.join(plain, "src"))
         crate = plain
-        os.makedirs(os.path.dirname(dst), exist_ok=True)
-        with open(src) as f, open(dst, "w") as g:
-            g.write(f.read())
-        cmd = ["cargo", "test", "--offline", "--test", name] + (["--release"] if dm.get("release") else [])
+        if dm.get("patch"):
+            # hook-based demonstration: a patch that adds test-only hook calls and #[cfg(test)] unit tests
+            prc, pout, _ = vlib.sh(["patch", "-p1", "--no-backup-if-mismatch", "-i", src], cwd=plain, timeout=60)
+            if prc != 0:
+                res["skipped"] = "the demonstration patch does not apply to this tree: " + pout.strip().split("\n")[-1][:200]
+                return res
+            cmd = ["cargo", "test", "--offline", "--lib", dm["lib_filter"], "--", "--test-threads=1"]
+        else:
+            os.makedirs(os.path.dirname(dst), exist_ok=True)
+            with open(src) as f, open(dst, "w") as g:
+                g.write(f.read())
+            cmd = ["cargo", "test", "--offline", "--test", name] + (["--release"] if dm.get("release") else [])
         rc, out, wall = vlib.sh(cmd, cwd=crate, timeout=timeout, env={"CARGO_TARGET_DIR": os.path.join(os.path.dirname(crate), "target_demo")})
         failed = rc not in (0, 124) and ("panicked at" in out or "FAILED" in out) and "could not compile" not in out
         res.update({"cmd": " ".join(cmd), "rc": rc, "wall_s": round(wall, 1), "failed_on_this_tree": failed,
